@@ -9,6 +9,8 @@ the node reached without them (branch independence / order independence).
 from __future__ import annotations
 
 import inspect
+import json
+import os
 import copy
 import itertools
 
@@ -221,6 +223,9 @@ SETOP_OPS = {
     "add": lambda r: r + Query.from_(Table("w")).select("q"),
     "mul": lambda r: r * Query.from_(Table("w")).select("q"),
     "sub": lambda r: r - Query.from_(Table("w")).select("q"),
+    "replace_table:t": lambda r: r.replace_table(A(Table("t")), A(Table("tt"))),
+    "replace_table:u": lambda r: r.replace_table(A(Table("u")), A(Table("tt", alias="x"))),
+    "replace_table:al": lambda r: r.replace_table(A(Table("t", alias="ta")), A(Table("tt", alias="x"))),
 }
 CREATE_OPS = {
     "create_table": lambda r: r.create_table("n"),
@@ -239,6 +244,9 @@ CREATE_OPS = {
     "primary_key:dup": lambda r: r.primary_key("tenant", "region", "tenant", "id", "zone", "region"),
     "columns:dup": lambda r: r.columns("tenant", "region", "tenant", "id", "zone", "region"),
     "as_select": lambda r: r.as_select(sub_()),
+    # the SELECT built through another dialect's class than the CREATE
+    "as_select:other_cls": lambda r: r.as_select(A(fp.QCLS["mysql"].from_(Table("v")).select("id"))),
+    "as_select:pg_cls": lambda r: r.as_select(A(fp.QCLS["postgresql"].from_(Table("v")).select("id").where(Table("v").id == 1))),
     "if_not_exists": lambda r: r.if_not_exists(),
 }
 DROP_OPS = {"drop_table": lambda r: r.drop_table("n"), "if_exists": lambda r: r.if_exists()}
@@ -430,6 +438,27 @@ def _method_of(fam, key):
     return key.split(":")[0]
 
 
+# Builder calls that raise on the reference tree: "<defining class.method>|<op key>|<exception>" (known_witnesses/C01_raises.json,
+# written only by tools/record_witnesses.py C01). A call of the alphabet that returns on the reference tree must not raise.
+_RAISES_FILE = os.path.join(os.path.dirname(os.path.dirname(os.path.dirname(os.path.abspath(__file__)))), "known_witnesses", "C01_raises.json")
+_RAISES = set(json.load(open(_RAISES_FILE))) if os.path.exists(_RAISES_FILE) else None
+_REC = bool(os.environ.get("VERIF_RECORD_WITNESSES"))
+_rec_seen = set()
+
+
+def _note_raise(res, parent, key, err, case):
+    ent = "%s|%s|%s" % (_sig_class(parent, key), key, err)
+    if _REC:
+        if ent not in _rec_seen:
+            _rec_seen.add(ent)
+            with open(os.path.join(os.path.dirname(_RAISES_FILE), ".C01_raises.%d" % os.getpid()), "a") as f:
+                f.write(ent + "\n")
+    elif _RAISES is not None and ent not in _RAISES:
+        res.violate("C01|%s|raises|%s" % (_sig_class(parent, key), err),
+                    "builder call %s raised %s; on the reference tree this call of the alphabet never raises (a builder method returns a new object "
+                    "for every prior state of the receiver)" % (key, err), fam=case["fam"], seed=case["seed"], ops=case["ops"], shape=case["shape"])
+
+
 def _sig_class(recv, key):
     """class that defines the builder method behind op `key` (so one defect = one signature)."""
     m = key.split(":")[0]
@@ -528,8 +557,9 @@ def run_rendered(case):
             continue
         try:
             x = ops[key](parent)
-        except Exception:
+        except Exception as e:
             x = None
+            _note_raise(res, parent, key, type(e).__name__, case)
         res.transitions += 1
         bx = _obs_or_none(x) if x is not parent else None
         for j in range(len(nodes)):
@@ -588,6 +618,7 @@ def run_case(case):
             x = ops[key](parent)
         except Exception as e:
             x, err = None, type(e).__name__
+            _note_raise(res, parent, key, err, case)
         res.transitions += 1
         args = list(_args_out)
         nodes.append(x)
